@@ -64,6 +64,9 @@ type World struct {
 	Online   *Verdict
 	// PostAction, when set, runs on the driver after every executed action.
 	PostAction func(idx int)
+	// OnStart, when set, runs after every successful (re)start of an instance.
+	OnStart   func(i int)
+	CurAction int
 	mu         sync.Mutex
 	asyncGoids map[uint64]bool
 	Scratch    map[string]any // per-run state of property-specific handlers
@@ -338,6 +341,9 @@ func (w *World) StartInst(i int) error {
 	in.Alive = true
 	in.Gen++
 	w.H.AddEvent("start", in.Name, fmt.Sprintf("gen=%d cfg=%d", in.Gen, in.CfgIdx))
+	if w.OnStart != nil {
+		w.OnStart(i)
+	}
 	return nil
 }
 
